@@ -72,6 +72,8 @@ def apply_model(t, op):
             return 'NotADirectoryError'
         return None
     if k in ('write', 'append', 'seekwrite', 'truncate', 'touch'):
+        if k == 'write' and op.get('via') == 'exclusive' and node not in (None, 'notdir'):
+            return 'FileExistsError' if node['kind'] != 'dir' else 'IsADirectoryError'
         if node == 'notdir' or par == 'notdir':
             return 'NotADirectoryError'
         if par is None:
@@ -101,6 +103,48 @@ def apply_model(t, op):
                 del d[n:]
             else:
                 d += bytes(n - len(d))
+        return 'ok'
+    if k == 'session':
+        # one open handle: open(mode) ; seek / write / truncate / read steps ; close
+        mode = op['mode']
+        if node == 'notdir' or par == 'notdir':
+            return 'NotADirectoryError'
+        if par is None:
+            return 'FileNotFoundError'
+        if par['kind'] != 'dir':
+            return 'NotADirectoryError'
+        if node is not None and node['kind'] == 'dir':
+            return 'IsADirectoryError'
+        if 'r' in mode and node is None:
+            return 'FileNotFoundError'
+        if 'x' in mode and node is not None:
+            return 'FileExistsError'
+        if node is None:
+            node = {'kind': 'file', 'name': name, 'data': bytearray()}
+            par['children'][name.upper()] = node
+        if 'w' in mode or 'x' in mode:
+            node['data'] = bytearray()
+        d = node['data']
+        pos = len(d) if 'a' in mode else 0
+        reads = []
+        for st in op['steps']:
+            if st[0] == 'seek':
+                pos = st[1]
+            elif st[0] == 'write':
+                if pos > len(d):
+                    d += bytes(pos - len(d))
+                d[pos:pos + len(st[1])] = st[1]
+                pos += len(st[1])
+            elif st[0] == 'truncate':
+                n = pos if st[1] is None else st[1]
+                if n <= len(d):
+                    del d[n:]
+                else:
+                    d += bytes(n - len(d))
+            elif st[0] == 'read':
+                reads.append(bytes(d[pos:pos + st[1]]))
+                pos = min(len(d), pos + st[1]) if pos < len(d) else pos
+        op['_reads'] = reads
         return 'ok'
     if k == 'unlink':
         if node == 'notdir' or par == 'notdir':
@@ -164,8 +208,32 @@ def apply_impl(fs, op):
         p = fs.root / op['path'].lstrip('/')
         with lib.time_limit(20, str(op.get('op'))), warnings.catch_warnings():
             warnings.simplefilter('ignore')
-            if k == 'write':
-                if op.get('via') == 'open':
+            if k == 'session':
+                reads = []
+                with p.open(op['mode'], buffering=op.get('buffering', -1)) as f:
+                    for st in op['steps']:
+                        if st[0] == 'seek':
+                            f.seek(st[1])
+                        elif st[0] == 'write':
+                            f.write(st[1])
+                        elif st[0] == 'truncate':
+                            f.truncate(st[1])
+                        elif st[0] == 'read':
+                            got = b''                   # a raw (unbuffered) handle may return short reads
+                            while len(got) < st[1]:
+                                chunk = f.read(st[1] - len(got))
+                                if not chunk:
+                                    break
+                                got += chunk
+                            reads.append(got)
+                if '_reads' in op and reads != op['_reads']:
+                    i = next(i for i, (a, b) in enumerate(zip(reads, op['_reads'])) if a != b)
+                    return f'READ-MISMATCH(read #{i}: {len(reads[i])} bytes {reads[i][:12].hex()}.. expected {len(op["_reads"][i])} bytes {op["_reads"][i][:12].hex()}..)'
+            elif k == 'write':
+                if op.get('via') == 'exclusive':
+                    with p.open('xb') as f:
+                        f.write(op['data'])
+                elif op.get('via') == 'open':
                     with p.open('wb') as f:
                         f.write(op['data'])
                 else:
@@ -202,7 +270,45 @@ NAMES = ['a.txt', 'B.BIN', 'config.txt', 'Long File Name.data', 'readme', 'x', '
          'abcdefgh.ijk', 'abcdefghi.jkl', 'abcdef~1.txt', 'ABCDEF~2.TXT']
 
 
-def gen_op(rng, t, cs, dirs_ok=True, big=False):
+def gen_session(rng, t, cs, files, new_path, variant, payload):
+    """several steps on ONE open handle (a composite of public operations, so only for single-threaded histories)"""
+    mode = rng.choice(['r+b', 'r+b', 'wb', 'w+b', 'ab', 'xb', 'a+b'])
+    if 'r' in mode or (files and rng.random() < 0.7 and 'x' not in mode):
+        if not files:
+            mode = 'w+b'
+            p, ln = new_path(), 0
+        else:
+            p = rng.choice(files)
+            ln = len(t.get(p)['data'])
+            p = variant(p)
+    else:
+        p, ln = new_path(), 0
+    if 'w' in mode or 'x' in mode:
+        ln = 0
+    steps, pos, hi = [], (ln if 'a' in mode else 0), ln
+    for _ in range(rng.randint(1, 5)):
+        r = rng.random()
+        if 'a' in mode:
+            r = 0.5 if r < 0.45 else r          # no seeks before writes in append mode
+        if r < 0.3:
+            pos = rng.choice([0, 1, cs - 1, cs, cs + 1, ln, ln + 1, ln + cs, ln // 2, 2 * cs + 3, max(0, ln - 1)])
+            steps.append(('seek', pos))
+        elif r < 0.65:
+            d = payload()[:rng.choice([1, 5, cs, 2 * cs + 1])] or b'q'
+            steps.append(('write', d))
+            pos += len(d)
+        elif r < 0.85:
+            n = rng.choice([None, 0, 1, cs, cs + 1, ln, max(0, ln - cs), ln + cs + 1, 3 * cs])
+            steps.append(('truncate', n))
+            hi = max(hi, pos if n is None else n)
+        elif '+' in mode:
+            n = rng.choice([1, cs, 2 * cs + 1, 10 * cs])
+            steps.append(('read', n))
+        hi = max(hi, pos)
+    return dict(op='session', path=p, mode=mode, buffering=rng.choice([-1, 0]), steps=steps, pos=0, size=hi)
+
+
+def gen_op(rng, t, cs, dirs_ok=True, big=False, sessions=False):
     """one random operation biased towards existing paths"""
     def all_paths(n=None, base=''):
         n = n or t.root
@@ -224,10 +330,13 @@ def gen_op(rng, t, cs, dirs_ok=True, big=False):
     def payload():
         n = rng.choice([0, 1, cs - 1, cs, cs + 1, 2 * cs, 2 * cs + 1, 3 * cs - 1, 5 * cs] if not big else [7 * cs, 9 * cs + 3])
         return bytes(rng.getrandbits(8) for _ in range(n))
-    kind = rng.choice(['write', 'write', 'append', 'seekwrite', 'truncate', 'unlink', 'mkdir', 'rmdir', 'rename', 'rename', 'touch', 'write'])
+    kind = rng.choice(['write', 'write', 'append', 'seekwrite', 'truncate', 'unlink', 'mkdir', 'rmdir', 'rename', 'rename', 'touch', 'write']
+                      + (['session', 'session', 'session'] if sessions else []))
+    if kind == 'session':
+        return gen_session(rng, t, cs, files, new_path, variant, payload)
     if kind == 'write':
         p = variant(rng.choice(files)) if files and rng.random() < 0.5 else new_path()
-        return dict(op='write', path=p, data=payload(), via=rng.choice(['open', 'bytes']))
+        return dict(op='write', path=p, data=payload(), via=rng.choice(['open', 'bytes', 'open', 'bytes', 'exclusive']))
     if kind == 'append':
         p = variant(rng.choice(files)) if files and rng.random() < 0.7 else new_path()
         return dict(op='append', path=p, data=payload())
@@ -265,8 +374,10 @@ def gen_op(rng, t, cs, dirs_ok=True, big=False):
             tgt = src                                  # identical
         elif r < 0.3:
             tgt = src.rsplit('/', 1)[0] + '/' + src.rsplit('/', 1)[1].swapcase()   # case variant of itself
-        elif r < 0.55 and files:
+        elif r < 0.5 and files:
             tgt = rng.choice(files)                    # onto an existing file
+        elif r < 0.62:
+            tgt = rng.choice(dirs) + '/' + src.rsplit('/', 1)[1]     # the same name in another (or the same) directory
         else:
             tgt = new_path()
         if t.get(src)['kind'] == 'dir' and (tgt.upper() + '/').startswith(src.upper() + '/') and tgt.upper() != src.upper():
